@@ -269,7 +269,8 @@ def edit(args: Namespace) -> str:
         "httpseeds": args.httpseeds,
         "announce": args.announce,
         "source": args.source,
-        "private": args.private,
+        # store_true flag: absent means "leave untouched", not "set"
+        "private": args.private or None,
         "comment": args.comment,
     }
     return edit_torrent(metafile, editargs)
